@@ -199,8 +199,20 @@ func runLimits(seed uint64, cas int, tier string) *LimRes {
 			r = s.exec(&Op{K: OpWrite, H: cr.FH, Off: fc.size - uint64(n), Count: n, DataLen: n, Uid: s.nextUid, Stable: 2})
 			note("maxfilesize", clampDelta(fc.size, mx), "WRITE", r.Stat == stOK)
 		} else {
-			r = s.exec(&Op{K: OpSetattr, H: cr.FH, SetSize: true, Size: fc.size})
-			note("maxfilesize", clampDelta(fc.size, mx), "SETATTR", r.Stat == stOK)
+			// alone, with "set mtime to server time" (what truncate(2) sends) and
+			// with client-supplied times
+			op := &Op{K: OpSetattr, H: cr.FH, SetSize: true, Size: fc.size}
+			switch i % 6 {
+			case 1:
+				op.SetMtime = 1
+			case 3:
+				op.SetMtime, op.Mtime = 2, [2]uint32{77, 5}
+				op.SetAtime, op.Atime = 2, [2]uint32{78, 6}
+			case 5:
+				op.SetAtime = 1
+			}
+			r = s.exec(op)
+			note("maxfilesize", clampDelta(fc.size, mx), fmt.Sprintf("SETATTR(times:%d)", i%6), r.Stat == stOK)
 		}
 		if within && r.Stat != stOK {
 			viol("file size %d (announced maxfilesize %d) by %s: status %d", fc.size, mx, map[bool]string{true: "WRITE", false: "SETATTR"}[fc.byWrite], r.Stat)
